@@ -23,6 +23,7 @@ type Stream struct {
 	cursor                int64
 	filledBuffer          bool
 	allRead               bool
+	readErr               error
 	UseNumber             bool
 	DisallowUnknownFields bool
 	Option                *Option
@@ -225,9 +226,20 @@ func (s *Stream) read() bool {
 	if err == io.EOF {
 		s.allRead = true
 	} else if err != nil {
+		s.readErr = err
 		return false
 	}
 	return true
+}
+
+// ReadError returns the error (other than io.EOF) that the underlying reader reported since the
+// last call of ClearReadError, if any.
+func (s *Stream) ReadError() error {
+	return s.readErr
+}
+
+func (s *Stream) ClearReadError() {
+	s.readErr = nil
 }
 
 func (s *Stream) skipWhiteSpace() byte {
